@@ -1,28 +1,10 @@
 (* Bridge: the plane sizes of DecodedPicture::new (decoder/picture.rs) as translated from the Rust source on this run
    (gen/GenKPicture.v): the chroma width and height are computed in binary32 - `(w as f32 / 2.0).ceil() as usize` - and the
-   model uses (w + 1) / 2.  That the float computation is exact for every u16 is proved here by evaluating it (Flocq's
+   model uses (w + 1) / 2.  That the float computation is exact for every u16 is proved in proofs/FloatCeil.v by evaluating it (Flocq's
    binary32 division, round-up to an integer, truncating cast) on all 65 536 values inside the kernel. *)
-From H263V Require Import base.Prelude base.Checked model.F32 gen.GenKPicture bridge.KTactics.
+From H263V Require Import base.Prelude base.Checked model.F32 gen.GenKPicture bridge.KTactics proofs.FloatCeil.
 Require Import ZifyBool.
 Ltac Zify.zify_post_hook ::= Z.div_mod_to_equations.
-
-Definition half_ok (w : Z) : bool := f_to_usize (fceil (fdiv (f_of_Z w) (f_of_Z 2))) =? (w + 1) / 2.
-
-Definition bytes256 : list Z := map Z.of_nat (seq 0 256).
-
-Lemma half_ok_all : forallb (fun a => forallb (fun b => half_ok (256 * a + b)) bytes256) bytes256 = true.
-Proof. vm_compute. reflexivity. Qed.
-
-Lemma in_bytes256 x : 0 <= x < 256 -> In x bytes256.
-Proof. intros H. unfold bytes256. apply in_map_iff. exists (Z.to_nat x). split; [lia|]. apply in_seq. lia. Qed.
-
-Lemma half_exact w : 0 <= w <= 65535 -> f_to_usize (fceil (fdiv (f_of_Z w) (f_of_Z 2))) = (w + 1) / 2.
-Proof.
-  intros H. pose proof half_ok_all as A. rewrite forallb_forall in A.
-  specialize (A (w / 256) (in_bytes256 (w / 256) ltac:(lia))). rewrite forallb_forall in A.
-  specialize (A (w mod 256) (in_bytes256 (w mod 256) ltac:(lia))).
-  replace (256 * (w / 256) + w mod 256) with w in A by lia. unfold half_ok in A. lia.
-Qed.
 
 Lemma bridge_k_chroma_w w : 0 <= w <= 65535 -> k_chroma_w w = (w + 1) / 2.
 Proof. intros H. unfold k_chroma_w. cbv zeta. apply half_exact. exact H. Qed.
